@@ -239,6 +239,13 @@ class TT:
         self.memo = {}
 
     def of(self, u):
+        # a reference that depends on a variable outside `names` has no table here: -1
+        try:
+            return self._of(u)
+        except KeyError:
+            return -1
+
+    def _of(self, u):
         t = self._node(abs(u))
         return (self.full & ~t) if u < 0 else t
 
@@ -251,8 +258,8 @@ class TT:
         i, v, w = self.b._succ[u]
         name = self.b._level_to_var[i]
         mk = self.masks[name]
-        lo = self.of(v)
-        hi = self.of(w)
+        lo = self._of(v)
+        hi = self._of(w)
         r = (mk & hi) | (self.full & ~mk & lo)
         self.memo[u] = r
         return r
